@@ -290,7 +290,8 @@ func (gb *gcpBalancer) UpdateClientConnState(ccs balancer.ClientConnState) error
 	}
 
 	if len(gb.scRefs) == 0 {
-		gb.newSubConn()
+		// gb.mu is already held here: newSubConn() would lock it again.
+		gb.addSubConn()
 		return nil
 	}
 
